@@ -39,7 +39,9 @@ func (c *ctx) probeConn(i int) {
 			if !closed {
 				closeStep = e.Step
 			}
-			closed = true
+			if e.Seq < drain {
+				closed = true // closed by the server on its own, not by the end-of-run shutdown
+			}
 		case "read-end":
 			if e.S == "i/o timeout" && e.Seq < drain {
 				deadlineFired = true
@@ -108,7 +110,9 @@ func (c *ctx) probeConn(i int) {
 				}
 			}
 			expReplies = append(expReplies, pr)
-			if pr.Step.Reply != nil && !pr.Step.Reply.Sendable() {
+			if len(cs.Handler) > inv.Index && len(cs.Handler[inv.Index].Extra) > 0 {
+				// several Reply calls: judged by the reply packets only
+			} else if pr.Step.Reply != nil && !pr.Step.Reply.Sendable() {
 				// C02 on the server side: Reply must fail and write nothing for a value
 				// that does not fit its wire widths or breaks validation
 				if res, ok := c.replyResult(id, inv.Index); ok && res == "" {
@@ -122,6 +126,9 @@ func (c *ctx) probeConn(i int) {
 		case "terminate", "badsecret", "truncated", "oversize":
 			if k < len(invs) {
 				inv := invs[k]
+				if inv.H != pr.H && (pr.Kind == "terminate" || pr.Kind == "badsecret") {
+					c.vs("C07/processed-after-reject", pr.Why, "conn %d: packet op %d %s was rejected (%s) yet a handler ran afterwards with %s: the connection was not closed", id, pr.Op, hstr(pr.H), pr.Why, hstr(inv.H))
+				}
 				switch pr.Kind {
 				case "terminate":
 					sub := pr.Why
